@@ -243,7 +243,7 @@ func checkParamFlags(c *Ctx, gen *packages.Package) {
 		v := goan.Field(lit, f)
 		got := ""
 		if v != nil {
-			got = goan.ExprString(v)
+			got = goan.ExprString(goan.ResolveLocal(info, fd.Body, v))
 		}
 		c.Check(got == w, rule, fmt.Sprintf("generator.codeGenOpBuilder.MakeParameter › GenParameter.%s = %s", f, w), c.posOf(gen, lit.Pos()), "copied from the spec parameter", fmt.Sprintf("GenParameter.%s is %q, not %s: the binder is generated from a value the spec does not declare", f, got, w))
 	}
